@@ -8,7 +8,7 @@ stream the `PullWasteRecords` handler composes from the record history and a `Va
 * `C04_waste_adds_reach_quiet`, `C04_waste_stream_quiet_partial`: whenever no `AddWasteRecord` is between
   its two steps, a stream that is not updates-only sends exactly the last 50 records (fewer if there are
   fewer), oldest first, then every record added later, each once, all projected by the read mask.
-* `C04_waste_midadd_record_missed_fails`: KNOWN FINDING `C04/wastepb.PullWasteRecords/record-missed` - a
+* `C04_waste_midadd_record_missed_fails`: KNOWN FINDING `C04/wastepb.PullWasteRecords/newest-record-missed-during-add` - a
   stream opened while an `AddWasteRecord` is between its `Set` and its append sends the history WITHOUT its
   last record (the handler leaves it to the seed), and the seed IS ALREADY the record being added: the
   newest completed record is sent by nobody, although a stream opened just before or just after would
